@@ -8,6 +8,9 @@ import (
 
 // checkDedupSpecific: the C29 rules beyond plain guarded-by.
 func checkDedupSpecific(c *Ctx, r *Report, pkg, tRC, tLim, tTask, tTrap string) {
+	// the task's state fields by role (names are resolved from the struct and from
+	// what the GC stores, so renaming them does not move the anchors)
+	fRun, fDel, taskFields := taskFieldRoles(c, pkg, tTask)
 	// task state under cond.L
 	r2 := r.Rule("R2", "E-LOCK(cond.L)", "task.running/output/expiresAt/deleted are written only while the task's condition lock is held", 2)
 	for _, fn := range c.FuncsIn(pkg) {
@@ -16,7 +19,7 @@ func checkDedupSpecific(c *Ctx, r *Report, pkg, tRC, tLim, tTask, tTrap string) 
 		}
 		var sets map[ssa.Instruction]lockState
 		n, bad := 0, 0
-		for _, f := range []string{"running", "output", "expiresAt", "deleted"} {
+		for _, f := range taskFields {
 			for _, st := range storesToField(fn, tTask+"."+f) {
 				fa := st.Addr.(*ssa.FieldAddr)
 				if _, fresh := rootOf(fa.X).(*ssa.Alloc); fresh {
@@ -202,7 +205,7 @@ func checkDedupSpecific(c *Ctx, r *Report, pkg, tRC, tLim, tTask, tTrap string) 
 			cond := guardedBy(in, func(c0 ssa.Value, val bool) int {
 				phi, isPhi := c0.(*ssa.Phi)
 				if !isPhi {
-					if mentionsCall(c0, "(*"+tTask+").expired") && mentionsField(c0, tTask+".running") {
+					if mentionsCall(c0, "(*"+tTask+").expired") && mentionsField(c0, fRun) {
 						return tern(val, 1, -1)
 					}
 					return 0
@@ -215,7 +218,7 @@ func checkDedupSpecific(c *Ctx, r *Report, pkg, tRC, tLim, tTask, tTrap string) 
 					}
 					any = true
 					v, pol := stripNot(e, true)
-					if !(isFieldLoad(v, tTask+".running") && !pol) {
+					if !(isFieldLoad(v, fRun) && !pol) {
 						okPhi = false
 					}
 					pred := phi.Block().Preds[i]
@@ -236,7 +239,7 @@ func checkDedupSpecific(c *Ctx, r *Report, pkg, tRC, tLim, tTask, tTrap string) 
 			})
 			marked := false
 			sets := locksets(gc, lockState{})
-			for _, st := range storesToField(gc, tTask+".deleted") {
+			for _, st := range storesToField(gc, fDel) {
 				held := false
 				for k, m := range sets[st] {
 					if m >= 2 && (k.mutex == "L" || k.mutex == "?") {
@@ -275,13 +278,29 @@ func checkDedupSpecific(c *Ctx, r *Report, pkg, tRC, tLim, tTask, tTrap string) 
 		})
 		r.Check(ok, r5, gc, "GC delete", nil, "expired ∧ ¬running, tombstone set under the task lock", "the GC removes a task without (expired ∧ ¬running) or without marking it deleted under the task lock: a Run that already holds the task executes it while a new task for the same key runs too")
 	}
-	if gout := r.MustFunc(r5, "(*"+tLim+").getOutput"); gout != nil {
-		for _, st := range storesToField(gout, tTask+".running") {
+	// the function that starts an execution: the Limiter method that sets the
+	// running flag (getOutput today)
+	var gout *ssa.Function
+	for _, fn := range c.FuncsIn(pkg) {
+		if c.isFixture(fn) || recvTypeName(fn) != tLim {
+			continue
+		}
+		for _, st := range storesToField(fn, fRun) {
+			if isBoolConst(st.Val, true) {
+				gout = fn
+			}
+		}
+	}
+	if gout == nil {
+		r.Unresolved(r5, "no Limiter method sets the task's running flag")
+	} else {
+		r.Analysed(gout)
+		for _, st := range storesToField(gout, fRun) {
 			if !isBoolConst(st.Val, true) {
 				continue
 			}
-			notDeleted := guardedBy(st, boolFieldFact(tTask+".deleted", false))
-			notRunning := guardedBy(st, boolFieldFact(tTask+".running", false))
+			notDeleted := guardedBy(st, boolFieldFact(fDel, false))
+			notRunning := guardedBy(st, boolFieldFact(fRun, false))
 			expired := guardedBy(st, func(c0 ssa.Value, val bool) int {
 				if isCallTo(c0, "(*"+tTask+").expired") {
 					return tern(val, 1, -1)
